@@ -6,7 +6,7 @@ import os
 from ..lib import cbuild, tlc
 from ..lib.common import workdir, rmworkdir, seed, log, MachineryError
 from ..lib.report import Report
-from ..drivers import simdrv, cmiodrv
+from ..drivers import simdrv, cmiodrv, replaylib
 
 PID = 'C19'
 
@@ -109,3 +109,29 @@ def run(tier):
                        'during the step (paging itself is C08)']
     rmworkdir('c19')
     return rep.finish()
+
+
+def replay(path):
+    """./check C19 --replay replays/C19-n.json : the recorded contended step on py / pycm / ccm of the current tree again (or the
+    wait-state tables dumped again), judged by CmioCases / DelayTables."""
+    d, rp = replaylib.load(path, PID)
+    wd = workdir('replay-c19')
+    found = []
+    if 'table' in rp:
+        rep = Report(PID, 'replay')          # only collects what the judge says; never finished (no evidence written)
+        tabs = cmiodrv.delay_tables()
+        if rp['table'] not in tabs:
+            raise MachineryError('unusable replay file %s: unknown wait-state table %r' % (path, rp['table']))
+        judge_delay_tables(rep, tabs, wd)
+        found = ['%s: %s' % (k, w) for k, w, _ in rep.violations if k.startswith('delay-table:%s:' % rp['table'])]
+    else:
+        replaylib.need(rp, path, 'key', 'r', 'ov', 'inv', 'frame', 'ia', 'm128', 'odd')
+        c = cmiodrv.rerun(rp)
+        r, fails = tlc.judge('z80', 'CmioCases', 'CmioCases.cfg', [c], casefile=os.path.join(wd, 'cmio.json'))
+        for _, clause in fails:
+            who, _, cl = clause.partition(':')
+            found.append('cmio%s:%s:%s:%s: %s at PC=%d T=%d (frame pos %d); dT py=%d pycm=%d ccm=%d'
+                         % ('128' if c['m128'] else '', c['key'].split('/')[0], who, cl, c['key'], c['r'][24], c['r'][25], c['r'][25] % c['frame'],
+                            c['obs'][0]['r'][25] - c['r'][25], c['obs'][1]['r'][25] - c['r'][25], c['obs'][2]['r'][25] - c['r'][25]))
+    rmworkdir('replay-c19')
+    return replaylib.verdict(PID, path, found)
